@@ -2427,6 +2427,8 @@ class Transport(threading.Thread, ClosingContextManager):
                     if not k.startswith(mp_required_prefix)
                 ]
                 self.get_security_options().kex = pkex
+                # advertise what we will actually select from
+                kex_algos = list(self.preferred_kex)
             available_server_keys = list(
                 filter(
                     list(self.server_key_dict.keys()).__contains__,
